@@ -5,7 +5,7 @@
 From AP Require Export Corr.Common Model.Rebase Base.Sorting.
 Open Scope N_scope.
 
-Definition fm (l : files) : fmap := fun r => lookup r l.
+Definition fm (l : files) : fmap := fm_of l.
 
 Definition pair_eqb {A B} (ea : A -> A -> bool) (eb : B -> B -> bool) (x y : A * B) : bool :=
   ea (fst x) (fst y) && eb (snd x) (snd y).
